@@ -3,6 +3,7 @@ package mon
 import (
 	"fmt"
 	"math"
+	"math/big"
 	"strconv"
 	"strings"
 	"unicode/utf16"
@@ -122,7 +123,41 @@ func genNumberLit(r *rng.R) string {
 	if r.Chance(1, 3) {
 		sign = "-"
 	}
-	switch r.Intn(17) {
+	switch r.Intn(19) {
+	case 17, 18: // decimal expansions at and next to the midpoint of two adjacent float64 values (rounding decisions)
+		for {
+			bits := r.U64()&0x000fffffffffffff | uint64(r.Range(1023-60, 1023+200))<<52
+			f := math.Float64frombits(bits)
+			g := math.Nextafter(f, math.Inf(1))
+			if math.IsInf(g, 0) {
+				continue
+			}
+			mid := new(big.Rat).Add(new(big.Rat).SetFloat64(f), new(big.Rat).SetFloat64(g))
+			mid.Quo(mid, big.NewRat(2, 1))
+			var lit string
+			if mid.IsInt() {
+				n := new(big.Int).Set(mid.Num())
+				n.Add(n, big.NewInt(int64(r.Range(-2, 2))))
+				lit = n.String()
+				if r.Chance(1, 4) {
+					lit += ".0"
+				}
+			} else {
+				// dyadic: the decimal expansion is finite; 80 fractional digits are enough for exponents >= -60
+				lit = mid.FloatString(80)
+				lit = strings.TrimRight(lit, "0")
+				switch r.Intn(3) {
+				case 0:
+					lit += "1"
+				case 1:
+					lit = lit[:len(lit)-1] + string(lit[len(lit)-1]-1) + "9999"
+				}
+				if strings.HasSuffix(lit, ".") {
+					lit += "0"
+				}
+			}
+			return sign + lit
+		}
 	case 16: // very long literals (still inside the float64 range)
 		switch r.Intn(3) {
 		case 0:
